@@ -272,13 +272,15 @@ class LinSolve(Module):
                             "This case can simply be solved by running two rhs (one for the real part and "
                             "one for the imaginary.")
 
-        # Determine the solver we want to use; choose again if the class of the matrix has changed
+        # Determine the solver we want to use; choose (and wrap) again if the class of the matrix has changed
+        solver = self._user_solver
         mat_class = (self.issparse, self.iscomplex, self.ishermitian)
+        if solver is None:
+            solver = auto_determine_solver(mat, ishermitian=self.ishermitian)
+            mat_class += (type(solver), getattr(solver, 'hermitian', None))
         if mat_class != self._mat_class:
             self._mat_class = mat_class
-            self.solver = self._user_solver
-        if self.solver is None:
-            self.solver = auto_determine_solver(mat, ishermitian=self.ishermitian)
+            self.solver = solver
         if not isinstance(self.solver, LDAWrapper) and self.use_lda_solver:
             lda_kwargs = dict(hermitian=self.ishermitian, symmetric=self.issymmetric)
             if hasattr(self.solver, 'tol'):
